@@ -105,6 +105,19 @@ Fixpoint h_run_v (rk : hred) (p : hparam) (lam : R) (st : hstate)
   | s :: tl => let r := h_step rk p lam (fst s) st (snd s) in r :: h_run_v rk p lam (fst r) tl
   end.
 
+(* LinearHomeostasis.forward(target) over the cells of ONE trainer (hand-transcribed: homeostasis.py:223-238): the loop
+   `for ... in zip(self.cells_, self): if target is None: target = state.target` REBINDS the argument, so once a cell's
+   default has been read it is what every later cell sees.  [dflts]: the cells' state.target in registration order
+   (None = no default; the RuntimeError for "no target at all" is the None of the result). *)
+Fixpoint targets_used (cur : option R) (dflts : list (option R)) : list (option R) :=
+  match dflts with
+  | [] => []
+  | d :: tl => let cur' := match cur with Some _ => cur | None => d end in cur' :: targets_used cur' tl
+  end.
+(* documented: the explicit target when given, else the cell's own default *)
+Definition targets_doc (fwd : option R) (dflts : list (option R)) : list (option R) :=
+  map (fun d => match fwd with Some _ => fwd | None => d end) dflts.
+
 (* ================================================================== 2. Accumulator *)
 (* appending a part: `if value is not None: self._pos.append(value)`; pos = torch.sum(stack(parts), 0) or None *)
 Definition part_add (a x : option R) : option R :=
